@@ -15,6 +15,9 @@ pub enum Kind {
     Pop,
     /// one key, N distinct messages: sign, verify; afterwards early signatures against their own and other messages
     SignVerify(Scheme),
+    /// the producing side alone, past 2^16 operations on one thread (sampled results verified)
+    ProducePop,
+    ProduceSign(Scheme),
 }
 
 pub struct MSoak<C: Suite> {
@@ -32,8 +35,8 @@ impl<C: Suite> MSoak<C> {
     }
     fn kinds(&self) -> Vec<Kind> {
         match self.prop {
-            "C09" => vec![Kind::Pop],
-            "C01" | "C02" => SCHEMES.iter().map(|s| Kind::SignVerify(*s)).collect(),
+            "C09" => vec![Kind::Pop, Kind::ProducePop],
+            "C01" | "C02" => SCHEMES.iter().flat_map(|s| [Kind::SignVerify(*s), Kind::ProduceSign(*s)]).collect(),
             _ => vec![],
         }
     }
@@ -103,6 +106,8 @@ impl<C: Suite> Model for MSoak<C> {
                         // and the reference agrees on the genuine one
                         chk("reference-accepts-own-proof", rf::pop_verify::<C::R>(&Vec::<u8>::from(&pks[j]), &Vec::<u8>::from(&pops[j])), format!("key #{}", j));
                     }
+                }
+                Kind::ProducePop => {
                     // producing side alone, past 2^16 operations on this thread: every proof is produced, sampled ones verified
                     let sample = |i: usize| i % 4999 == 0 || [255usize, 256, 1023, 1024, 4095, 4096, 32767, 32768, 65534, 65535, 65536, 65537].contains(&i);
                     for i in 0..n_produce {
@@ -135,6 +140,12 @@ impl<C: Suite> Model for MSoak<C> {
                         chk("other-message-after-soak", sigs[j].verify(&pk, msg(j + 1)).is_err(), format!("signature #{} for message #{}", j, j + 1));
                         chk("signature-bytes-after-soak", pt(sk.sign(lib_scheme(s), &msg(j)).expect("sign").as_raw_value()) == rf::enc(&rf::sign::<C::R>(&rsk, s, &msg(j))), format!("message #{}", j));
                     }
+                }
+                Kind::ProduceSign(s) => {
+                    let s = *s;
+                    let sk = SecretKey::<C>::from_hash(b"soak signer");
+                    let pk = sk.public_key();
+                    let rsk = rf::scalar_from_be(&sk.to_be_bytes()).unwrap();
                     // producing side alone, past 2^16 operations on this thread
                     let sample = |i: usize| i % 4999 == 0 || [255usize, 256, 1023, 1024, 4095, 4096, 32767, 32768, 65534, 65535, 65536, 65537].contains(&i);
                     for i in 0..n_produce {
@@ -166,6 +177,62 @@ impl<C: Suite> Model for MSoak<C> {
     }
 }
 
+/// two models explored as one (disjoint union of their state spaces)
+pub struct Both<A: Model, B: Model>(pub A, pub B);
+
+#[derive(Clone, Debug, PartialEq, Eq, Hash, Serialize, Deserialize)]
+#[serde(bound = "")]
+pub enum Either<X: Clone + Eq + std::hash::Hash + std::fmt::Debug + Serialize + serde::de::DeserializeOwned, Y: Clone + Eq + std::hash::Hash + std::fmt::Debug + Serialize + serde::de::DeserializeOwned> {
+    L(X),
+    R(Y),
+}
+
+impl<A: Model, B: Model<Action = A::Action>> Model for Both<A, B> {
+    type State = Either<A::State, B::State>;
+    type Action = A::Action;
+    fn name(&self) -> String {
+        let (a, b) = (self.0.name(), self.1.name());
+        match (a.rsplit_once('/'), b.rsplit_once('/')) {
+            (Some((p, x)), Some((q, y))) if p == q => format!("{}/{}+{}", p, x, y),
+            _ => format!("{}+{}", a, b),
+        }
+    }
+    fn init(&self) -> Vec<Self::State> {
+        self.0.init().into_iter().map(Either::L).chain(self.1.init().into_iter().map(Either::R)).collect()
+    }
+    fn actions(&self, s: &Self::State) -> Vec<Self::Action> {
+        match s {
+            Either::L(x) => self.0.actions(x),
+            Either::R(y) => self.1.actions(y),
+        }
+    }
+    fn step(&self, s: &Self::State, a: &Self::Action) -> Option<Self::State> {
+        match s {
+            Either::L(x) => self.0.step(x, a).map(Either::L),
+            Either::R(y) => self.1.step(y, a).map(Either::R),
+        }
+    }
+    fn check(&self, s: &Self::State, o: &mut Obs) {
+        match s {
+            Either::L(x) => self.0.check(x, o),
+            Either::R(y) => self.1.check(y, o),
+        }
+    }
+    fn describe(&self, s: &Self::State) -> String {
+        match s {
+            Either::L(x) => self.0.describe(x),
+            Either::R(y) => self.1.describe(y),
+        }
+    }
+    fn required_outcomes(&self) -> Vec<String> {
+        let mut v = self.0.required_outcomes();
+        v.extend(self.1.required_outcomes());
+        v.sort();
+        v.dedup();
+        v
+    }
+}
+
 pub fn models(prop: &'static str, tier: Tier) -> Vec<Box<dyn DynModel>> {
-    vec![bounded(MSoak::<Bls12381G1Impl>::new(prop, tier), 1), bounded(MSoak::<Bls12381G2Impl>::new(prop, tier), 1)]
+    vec![bounded(Both(MSoak::<Bls12381G1Impl>::new(prop, tier), MSoak::<Bls12381G2Impl>::new(prop, tier)), 1)]
 }
